@@ -93,3 +93,4 @@ open Csproto
 #print axioms Csproto.Bridge.PackedEncFuncs.EncodePackedBool_refines
 #print axioms Csproto.C02.Source.skip_step
 #print axioms Csproto.C02.Source.skip_walk
+#print axioms Csproto.Bridge.EncoderFuncs.EncodeMapEntryHeader_refines
